@@ -251,6 +251,31 @@ func tableCell(v ssa.Value) (g *ssa.Global, idx ssa.Value, cell int, ok bool) {
 				if g, i, ok := elem(a.X); ok {
 					return g, i, int(k), true
 				}
+				// the row (an array) copied into the loop variable's cell: e := T[i]; e[k]
+				if al, ok := a.X.(*ssa.Alloc); ok {
+					var src ssa.Value
+					n := 0
+					for _, r := range *al.Referrers() {
+						switch y := r.(type) {
+						case *ssa.Store:
+							if y.Addr == ssa.Value(al) {
+								src = y.Val
+							}
+							n++
+						case *ssa.IndexAddr:
+							for _, r2 := range *y.Referrers() {
+								if st, ok := r2.(*ssa.Store); ok && st.Addr == ssa.Value(y) {
+									n += 2 // a cell of the copy is reassigned
+								}
+							}
+						}
+					}
+					if u, ok := src.(*ssa.UnOp); ok && n == 1 && u.Op == token.MUL {
+						if g, i, ok := elem(u.X); ok {
+							return g, i, int(k), true
+						}
+					}
+				}
 			}
 		}
 	case *ssa.Index: // (*&T[i])[k] on an array value
@@ -328,12 +353,33 @@ func inductionDirection(idx ssa.Value, hdr *ssa.BasicBlock) int {
 
 // globalRows: the rows of a package-level []struct{…string…} / [][k]string / [n]… literal, as constant strings.
 func (p *Prog) globalRows(g *ssa.Global) ([][]string, bool) {
+	vals, ok := p.globalRowValues(g)
+	if !ok {
+		return nil, false
+	}
+	rows := make([][]string, len(vals))
+	for i, r := range vals {
+		for _, v := range r {
+			s, ok := constStr(v)
+			if !ok {
+				return nil, false
+			}
+			rows[i] = append(rows[i], s)
+		}
+	}
+	return rows, true
+}
+
+// globalRowValues: the cells of a package-level []struct{…} / [][k]T / [n]… literal as the values the package
+// initialiser stores (constants, function literals, …); a cell never stored is nil.
+func (p *Prog) globalRowValues(g *ssa.Global) ([][]ssa.Value, bool) {
 	init := p.LibSSA.Func("init")
 	if init == nil {
 		return nil, false
 	}
 	var al *ssa.Alloc
 	var n int64
+	var rowT types.Type
 	et := g.Type().(*types.Pointer).Elem().Underlying()
 	switch t := et.(type) {
 	case *types.Slice:
@@ -349,28 +395,26 @@ func (p *Prog) globalRows(g *ssa.Global) ([][]string, bool) {
 		if !ok {
 			return nil, false
 		}
-		n = at.Len()
+		n, rowT = at.Len(), at.Elem()
 	case *types.Array:
-		n = t.Len()
+		n, rowT = t.Len(), t.Elem()
 	default:
 		return nil, false
 	}
-	rows := make([][]string, n)
-	filled := 0
-	record := func(row int64, cell int, v ssa.Value) bool {
-		s, ok := constStr(v)
-		if !ok || row < 0 || row >= n {
-			return false
-		}
-		for len(rows[row]) <= cell {
-			rows[row] = append(rows[row], "\x00unset")
-		}
-		rows[row][cell] = s
-		filled++
-		return true
+	width := 0
+	switch rt := rowT.Underlying().(type) {
+	case *types.Struct:
+		width = rt.NumFields()
+	case *types.Array:
+		width = int(rt.Len())
+	default:
+		return nil, false
 	}
-	// stores through &base[row].f or &(&base[row])[k]; base is the literal's backing array or the global array
-	okAll := true
+	rows := make([][]ssa.Value, n)
+	for i := range rows {
+		rows[i] = make([]ssa.Value, width)
+	}
+	filled := 0
 	for _, b := range init.Blocks {
 		for _, ins := range b.Instrs {
 			st, ok := ins.(*ssa.Store)
@@ -395,20 +439,15 @@ func (p *Prog) globalRows(g *ssa.Global) ([][]string, bool) {
 				continue
 			}
 			row, ok := constInt(ia.Index)
-			if !ok || !record(row, cell, st.Val) {
-				okAll = false
-			}
-		}
-	}
-	if !okAll || filled == 0 {
-		return nil, false
-	}
-	for _, r := range rows {
-		for _, c := range r {
-			if c == "\x00unset" {
+			if !ok || row < 0 || row >= n || cell < 0 || cell >= width {
 				return nil, false
 			}
+			rows[row][cell] = st.Val
+			filled++
 		}
+	}
+	if filled == 0 {
+		return nil, false
 	}
 	return rows, true
 }
